@@ -122,6 +122,12 @@ def programs():
         lambda x: (lambda A, b1, b2, m: {"bb": A @ (b1 + b2), "bx": A @ (b1 + x), "mm": A @ (m + m), "bm": A @ (b1 * 2 + m)})(
             pt.make_placeholder("Ai", (3, 2), np.int64), pt.make_placeholder("b1", (2,), np.bool_),
             pt.make_placeholder("b2", (2,), np.bool_), pt.make_placeholder("mi", (2,), np.int64)))
+    # 0-d operands of an einsum, scaled; literal zeros in sums and differences
+    reg("zero_d_operand", {"v": (3,), "s": (), "t": ()},
+        lambda v, s, t: {"a": pt.einsum("i,->i", v, 2.0 * s), "b": pt.einsum("i,->", v, s * t), "c": pt.einsum("i,->i", v, (s + t) / 3.0),
+                         "d": pt.einsum("i,->i", v, s / t)})
+    reg("literal_zero", {"A": (2, 2), "x": (2,), "y": (2,)},
+        lambda A, x, y: {"a": A @ (0 - x), "b": A @ (y + 2.0 * (0.0 - x)), "c": 0 - A @ (x + y), "d": A @ (0 + x), "e": A @ (x - 0.0)})
     reg("sum_of_three", {"A": (2, 2), "x": (2,), "y": (2,), "z": (2,)}, lambda A, x, y, z: {"o": A @ (x + y + z)})
     # operations on the distribution path that are NOT linear: nothing may be pushed through them
     # (one program per three outputs: every subset of einsums gets its own distribution policy)
